@@ -303,7 +303,21 @@ def run_cases(ctx, exe, cases, cnt, var, cov, dist, distinct, nested=False):
     t0 = int(time.time())
     if not nested:
         ctx.log("%d source trees and jails built" % len(cases))
-    impl = run_batch([exe], ops, timeout=1800, env=dict(os.environ, ASAN_OPTIONS="detect_leaks=0"))
+    env = dict(os.environ, ASAN_OPTIONS="detect_leaks=0")
+    impl = run_batch([exe], ops, timeout=1800, env=env)
+
+    def rerun(idx):
+        for k in idx:
+            shutil.rmtree(jails[k], ignore_errors=True)
+            pcp.build_jail(jails[k], ents_l[k])
+        return run_batch([exe], [ops[k] for k in idx], timeout=1800, env=env)
+
+    def sigs_of(a):
+        f_ = pcp.fields(a[0][0]) if a[0] else {}
+        return (f_.get("csig"), f_.get("ssig"))
+    nre = pcp.retry_timeouts(impl, lambda a: "998" in sigs_of(a), lambda a: "997" in sigs_of(a), rerun)
+    if nre:
+        dist["timeouts_retried"] = dist.get("timeouts_retried", 0) + nre
     if not nested:
         ctx.log("real client/server round trips done")
     mans = ctx.model("pcp", "".join(l + "\n" for l in mlines), timeout=1800)
@@ -933,10 +947,29 @@ def run_e2e(ctx, cov, dist):
             cmd = ["pdcp", "-R", "pcptest", "-w", "h[1-3]"] + flags + ["-e", wrapper] + users + ["dst"]
         full = ["setpriv", "--reuid", "1000", "--regid", "1000", "--clear-groups"] + env + cmd
         cj = dict(e2e=True, command=" ".join(cmd), sources=[describe(t) for t in trees])
-        try:
-            pr = subprocess.run(full, cwd=w, stdout=subprocess.PIPE, stderr=subprocess.PIPE,
-                                timeout=10 if shape == "unreadable" else 120)
-        except subprocess.TimeoutExpired:
+        pr = None
+        for attempt in (0, 1):
+            # generous waits; a time-out alone is re-tried once (targets emptied) before it is reported
+            try:
+                pr = subprocess.run(full, cwd=w, stdout=subprocess.PIPE, stderr=subprocess.PIPE,
+                                    timeout=25 if shape == "unreadable" else 120)
+                break
+            except subprocess.TimeoutExpired:
+                subprocess.run(["pkill", "-9", "-u", "1000", "-f", wrapper])
+                if attempt == 0 and not getattr(ctx, "e2e_hang_confirmed", False):
+                    dist["timeouts_retried"] = dist.get("timeouts_retried", 0) + 1
+                    for h in HOSTS3:
+                        if h != destfile_host:
+                            shutil.rmtree(os.path.join(w, h, "dst"), ignore_errors=True)
+                            os.makedirs(os.path.join(w, h, "dst"))
+                    shutil.rmtree(os.path.join(w, "out"), ignore_errors=True)
+                    os.makedirs(os.path.join(w, "out"))
+                    open(log, "w").close()
+                    subprocess.run(["chown", "-R", "1000:1000", w])
+                    continue
+                ctx.e2e_hang_confirmed = True
+                break
+        if pr is None:
             if shape == "unreadable":
                 subprocess.run(["pkill", "-u", "1000", "-f", wrapper])
                 cov["evaluations"] += 1
@@ -1167,7 +1200,22 @@ def run_multi(ctx, exe, cases, cnt, var, cov, dist):
                 mlines0.append(c12_model_line(dict(mc, stream=s, um=0), ents, cnt, var))
                 index0.append((c, i))
     t0 = int(time.time())
-    impl = run_batch([exe], ops, timeout=1800, env=dict(os.environ, ASAN_OPTIONS="detect_leaks=0"))
+    env = dict(os.environ, ASAN_OPTIONS="detect_leaks=0")
+    impl = run_batch([exe], ops, timeout=1800, env=env)
+
+    def rerun(idx):
+        for k in idx:
+            jail = ops[k][0].split()[1]
+            shutil.rmtree(jail, ignore_errors=True)
+            pcp.build_jail(jail, index[k][0]["ents"])
+        return run_batch([exe], [ops[k] for k in idx], timeout=1800, env=env)
+
+    def f_of(a):
+        return pcp.fields(a[0][0]) if a[0] else {}
+    nre = pcp.retry_timeouts(impl, lambda a: f_of(a).get("sig") in ("998", "999") or f_of(a).get("to") == "1",
+                             lambda a: f_of(a).get("sig") == "997", rerun)
+    if nre:
+        dist["timeouts_retried"] = dist.get("timeouts_retried", 0) + nre
     mans = ctx.model("pcp", "".join(l + "\n" for l in mlines + mlines0), timeout=1800)
     res, res0 = {}, {}
     for (c, i), (ans, crash), ml in zip(index, impl, mans):
